@@ -18,7 +18,7 @@ func marr(xs ...MV) MV { return MV{T: "arr", A: xs} }
 var mnil = MV{T: "nil"}
 
 var falsyVals = []MV{mb(false), mnil, mi(0), mf("0.0"), ms("")}
-var truthyVals = []MV{mb(true), mi(1), mi(-1), mf("0.5"), mf("0.0000000001"), mf("0.000000000000000001"), ms("a"), ms("0"), ms("false"), marr(), marr(mi(0)), {T: "obj"}, mi(9223372036854775807)}
+var truthyVals = []MV{mb(true), mi(1), mi(-1), mf("0.5"), mf("0.0000000001"), mf("0.000000000000000001"), ms("a"), ms("0"), ms("false"), ms(" "), ms("   "), ms("nil"), ms("0.0"), marr(), marr(mi(0)), {T: "obj"}, mi(9223372036854775807)}
 
 func lit(v MV) MX     { return MX{K: "lit", V: v} }
 func rd(n string) MX  { return MX{K: "var", N: n} }
@@ -29,13 +29,15 @@ var ctrlData = map[string]MV{
 	"dt": mb(true), "df": mb(false), "dz": mi(0), "dn": mnil, "de": ms(""), "ds": ms("s"), "d5": mi(5),
 	"da": marr(mi(1), mi(2), mi(3)), "dea": marr(), "dsa": marr(ms("p"), ms("q")),
 	"dtf": mf("0.000000000001"), "dnf": mf("-0.00000000000000000001"),
+	// strings of white space only are not empty: truthy
+	"dsp": ms(" "), "dnl": ms("\n"), "dtab": ms("\t \r\n"), "dnb": ms("\u00a0"), "dzw": ms("\u200b"), "dz0": ms("\x00"),
 }
 
 // a condition with the given truth value, drawn from literals and data variables
 func (g *Gen) condOf(truth bool) MX {
 	if truth {
 		if g.chance(1, 4) {
-			return rd(g.pick([]string{"dt", "ds", "d5", "da", "dea"}))
+			return rd(g.pick([]string{"dt", "ds", "d5", "da", "dea", "dsp", "dnl", "dtab", "dnb", "dzw", "dz0"}))
 		}
 		return lit(truthyVals[g.n(len(truthyVals))])
 	}
@@ -304,6 +306,23 @@ func casesC02(g *Gen) []*Case {
 		c := evalCase("truthy_data", "@if("+name+")T@else"+"F@end", gd)
 		c.Oracle = expectOut(want)
 		cs = append(cs, c)
+		// the same value at every other truthiness site
+		brk, cnt := "1,2,3,", "1,2,3,"
+		if v.truthy() {
+			brk, cnt = "1", "123"
+		}
+		for src, w := range map[string]string{
+			"{{ " + name + " ? \"T\" : \"F\" }}":                            want,
+			"@if(false)A@elseif(" + name + ")T@else" + "F@end":                want,
+			"@each(q in da){{ q }}@breakIf(" + name + "),@end":                 brk,
+			"@each(q in da){{ q }}@continueIf(" + name + "),@end":              cnt,
+			"@for(i = 1; i < 4; i++){{ i }}@breakIf(" + name + "),@end":        brk,
+			"@if(" + name + ")@if(" + name + ")T@else" + "F@end@else" + "F@end": want,
+		} {
+			c := evalCase("truthy_data", src, gd)
+			c.Oracle = expectOut(w)
+			cs = append(cs, c)
+		}
 	}
 	// random nesting, inside loops too
 	for i := 0; i < g.scale(2500, 60000); i++ {
